@@ -62,6 +62,7 @@ RLT = {"name": "rlt", "kmodel": "rlt", "timeout": 3600}
 ANS1 = {"name": "ans1", "kmodel": "ans1", "timeout": 3600}
 IMAGEGEN = {"name": "imagegen", "kmodel": "imagegen", "timeout": 3600}
 ALIAS = {"name": "alias", "kmodel": "alias", "timeout": 3600}
+CLIPATH = {"name": "clipath", "kmodel": "clipath", "timeout": 7200}
 LZP = {"name": "lzp", "kmodel": "lzp", "timeout": 3600}
 FSD = {"name": "fsd", "kmodel": "fsd", "timeout": 3600}
 SRT = {"name": "srt", "kmodel": "srt", "timeout": 3600}
@@ -308,9 +309,13 @@ PROPS["C19"] = {
     "technique": "PARTIAL Lean proof over a file-system effect model of one file task (no clobber, input untouched, remove-safe at every crash point) with an acceptor run on strace projections of the real binary; tree round trips, refusals and SIGKILL runs on the real binary",
     "facts": ["Levels", "Names"],
     "theorems": T("Kanzi.Properties.C19_cli", "C19_no_clobber", "C19_input_untouched", "C19_remove_safe", "C19_acceptor_sound", "C19_trace_accepted")
-                + T("Kanzi.Properties.C19_levels", "C19_level_table_complete", "C19_level_names_valid", "C19_level_default_consistent", "C19_level_blocksizes_valid"),
-    "streams": [CLI, LEVELS],
-    "level_text": "PARTIAL PROOF. Proved on the effect model of one file task (openOut excl|trunc, write*, closeOut, closeIn, unlink src; crash after any prefix): without force an existing output is never opened for writing and nothing else happens; no effect targets the input except the final unlink; at every crash point the source still has its content or the output is complete and closed; any trace accepted by `cliAccepts` has these properties at every prefix (C19_acceptor_sound). Tie: strace projections (openat/write/close/unlink on the input and output paths) of real runs of the built binary must be accepted. NOT modelled: kernel durability (no fsync: power loss out of scope, SIGKILL is not), directory walking, argument parsing. The level table (re-extracted from the CLI source on every run) has exactly the levels 0..9, every level maps to codec names accepted by the library (through the C15 name model), default level and block sizes are valid (C19_level_*). Search on the real binary: random trees (empty files, nested dirs, names with spaces) x levels 0-9 / -t -e -b -j -x / --rm / -f / stdin-stdout / -o dir: tree restored byte for byte with exit 0; refusals leave existing files untouched; SIGKILL at random times during --rm runs then every source is intact or its output decodes to it.",
+                + T("Kanzi.Properties.C19_levels", "C19_level_table_complete", "C19_level_names_valid", "C19_level_default_consistent", "C19_level_blocksizes_valid")
+                + T("Kanzi.Properties.C19_paths", "C19_paths_outputs_distinct", "C19_paths_checked", "C19_paths_dichotomy", "C19_paths_refusal_real", "C19_paths_no_spurious_refusal", "C19_paths_no_spurious_refusal_decompress",
+                    "C19_paths_injective", "C19_paths_injective_decompress", "C19_paths_injective_inplace", "C19_paths_injective_inplace_decompress", "C19_paths_output_not_input", "C19_paths_output_not_input_decompress",
+                    "C19_paths_output_not_input_inplace", "C19_paths_within_outdir", "C19_paths_within_outdir_decompress", "C19_paths_roundtrip", "C19_paths_roundtrip_names", "C19_paths_roundtrip_inplace",
+                    "C19_paths_no_special_output", "C19_paths_formatted_input_ok", "C19_paths_file", "C19_clean_idempotent", "C19_walk_names_injective"),
+    "streams": [CLI, CLIPATH, LEVELS],
+    "level_text": "PARTIAL PROOF. Proved on the effect model of one file task (openOut excl|trunc, write*, closeOut, closeIn, unlink src; crash after any prefix): without force an existing output is never opened for writing and nothing else happens; no effect targets the input except the final unlink; at every crash point the source still has its content or the output is complete and closed; any trace accepted by `cliAccepts` has these properties at every prefix (C19_acceptor_sound). Tie: strace projections (openat/write/close/unlink on the input and output paths) of real runs of the built binary must be accepted. The PATH LOGIC of a whole run is modelled too (Model.CliPaths: filepath.Clean / Join / Rel / Base over bytes, the file list of a directory walk incl. the non-recursive form and the skip options, formattedInName / formattedOutName, the .knz / .bak name maps, both the single-file and the multi-file branch, the pre-flight name check, the special outputs) and proved for EVERY spelling of -i: distinct inputs get distinct outputs, no output is any input of the run (else the run is refused with status 7 before anything is opened - exact dichotomy C19_paths_dichotomy), every output lies under the output directory, a derived name is never taken for NONE/STDOUT, and decompress(compress) maps every relative path back (C19_paths_*); tied by the clipath stream, which runs the real binary on generated trees (adversarial names, spellings ./T T// T/../T . T. .., one/two-file trees, shadowing names) and compares the task list / refusal with the model. NOT modelled: kernel durability (no fsync: power loss out of scope, SIGKILL is not), option parsing, stdin. The level table (re-extracted from the CLI source on every run) has exactly the levels 0..9, every level maps to codec names accepted by the library (through the C15 name model), default level and block sizes are valid (C19_level_*). Search on the real binary: random trees (empty files, nested dirs, names with spaces) x levels 0-9 / -t -e -b -j -x / --rm / -f / stdin-stdout / -o dir: tree restored byte for byte with exit 0; refusals leave existing files untouched; SIGKILL at random times during --rm runs then every source is intact or its output decodes to it.",
     "level_note": BASE_NOTE + "strace and the kernel for the observed part; TPAQ-level scenarios are capped in size.",
     "assumptions": ["close(2) reports deferred write errors", "unlink is atomic"],
 }
